@@ -20,6 +20,7 @@ import (
 	"os"
 	"runtime"
 	"strings"
+	"syscall"
 	"time"
 
 	"github.com/kstenerud/go-concise-encoding/cbe"
@@ -276,9 +277,21 @@ var c08Modes = []c08Mode{
 	}},
 }
 
+// cpuTime: user+system CPU time of this process so far (wall-clock time would also measure how busy
+// the machine is with other work)
+func cpuTime() time.Duration {
+	var ru syscall.Rusage
+	if err := syscall.Getrusage(syscall.RUSAGE_SELF, &ru); err != nil {
+		return 0
+	}
+	return time.Duration(ru.Utime.Nano() + ru.Stime.Nano())
+}
+
+// c08Measure: bytes allocated, CPU time consumed (the harness runs one decode at a time) and outcome
 func c08Measure(fn func() error) (alloc uint64, dur time.Duration, outcome string) {
 	var m0, m1 runtime.MemStats
 	runtime.ReadMemStats(&m0)
+	c0 := cpuTime()
 	t0 := time.Now()
 	res, hung := withWatchdog(c08TimeLimit, func() string {
 		if err := fn(); err != nil {
@@ -286,7 +299,10 @@ func c08Measure(fn func() error) (alloc uint64, dur time.Duration, outcome strin
 		}
 		return "ok"
 	})
-	dur = time.Since(t0)
+	dur = cpuTime() - c0
+	if dur <= 0 {
+		dur = time.Since(t0)
+	}
 	runtime.ReadMemStats(&m1)
 	if hung {
 		return m1.TotalAlloc - m0.TotalAlloc, dur, "HANG"
@@ -443,14 +459,14 @@ func runC08(r *Run) {
 			return
 		}
 		// time: only gross super-linear growth, confirmed by a second measurement of both sizes
-		if t1 >= 250*time.Millisecond && t4 > 10*t1 {
+		if t1 >= 250*time.Millisecond && t4 > 12*t1 {
 			_, u1, p1 := c08Measure(func() error { return mode.run(d1, cfg) })
 			_, u4, p4 := c08Measure(func() error { return mode.run(d4, cfg) })
 			if p1 == "HANG" || p4 == "HANG" {
 				aborted = true // the decode is still running: nothing measured after this would be meaningful
 			}
-			if u1 >= 250*time.Millisecond && u4 > 10*u1 {
-				r.out.Finding("C08", "cost:"+f.name, fmt.Sprintf("decoding time grows much faster than linearly (4 times the document: %v -> %v, again %v -> %v): %s",
+			if u1 >= 250*time.Millisecond && u4 > 12*u1 {
+				r.out.Finding("C08", "cost:"+f.name, fmt.Sprintf("decoding CPU time grows much faster than linearly (4 times the document: %v -> %v, again %v -> %v): %s",
 					t1.Round(time.Millisecond), t4.Round(time.Millisecond), u1.Round(time.Millisecond), u4.Round(time.Millisecond), desc), replay)
 			}
 		}
